@@ -12,6 +12,7 @@ import (
 	"sort"
 	"strings"
 	"testing"
+	"time"
 
 	"pgregory.net/rapid"
 
@@ -90,6 +91,9 @@ type c14Case struct {
 	Targets []c14Target `json:"targets"`
 	Scrapes []c14Scrape `json:"scrapes"`
 	Head    int64       `json:"head"` // Prometheus' own head series figure
+	// SlowHeadMS: when the runtime info is asked for after the last scrape, Prometheus needs that long to answer the
+	// head-series question (a TSDB busy with compaction); the answer is still the answer
+	SlowHeadMS int `json:"slowHeadMs,omitempty"`
 }
 
 func (c *c14Case) config() string {
@@ -340,11 +344,16 @@ func runC14(rec *vkit.Recorder, c *c14Case) []vkit.Violation {
 			sumS += mm.series
 			sumT += mm.total
 		}
+		if c.SlowHeadMS > 0 && i == len(c.Scrapes)-1 {
+			n.headDelay = time.Duration(c.SlowHeadMS) * time.Millisecond
+			rec.Class(fmt.Sprintf("prometheus-answers-the-head-series-question-after-%dms", c.SlowHeadMS))
+		}
 		var ri shard.RuntimeInfo
 		if err := n.get("/api/v1/shard/runtimeinfo/", &ri); err != nil {
 			add("C14/harness", "%v", err)
 			break
 		}
+		n.headDelay = 0
 		if ri.ProcessSeries != sumT {
 			add("C14/process-series", "after scrape %d: processSeries %d, sum of totalSeries %d", i, ri.ProcessSeries, sumT)
 		}
@@ -559,6 +568,28 @@ func TestC14(t *testing.T) {
 		}
 		if rec.WantSample() {
 			rec.Sample(c)
+		}
+	})
+}
+
+// TestC14SlowHead: few scrapes, a Prometheus head far above the sum of the targets' series, and a Prometheus that takes
+// seconds to say so.
+func TestC14SlowHead(t *testing.T) {
+	rec := recC14()
+	rapid.Check(t, func(t *rapid.T) {
+		c := genC14(t)
+		if len(c.Scrapes) > 3 {
+			c.Scrapes = c.Scrapes[:3]
+		}
+		c.Head = int64(rapid.SampledFrom([]int{100000, 5000000}).Draw(t, "bigHead"))
+		delays := []int{3500, 4200}
+		if vkit.Thorough() {
+			delays = []int{3500, 6500, 11000, 16000}
+		}
+		c.SlowHeadMS = rapid.SampledFrom(delays).Draw(t, "slowHeadMs")
+		if bad := rec.Filter(runC14(rec, c)); len(bad) > 0 {
+			p := vkit.SaveViolation("C14", "TestC14SlowHead", c, bad, nil)
+			t.Fatalf("%s (replay %s)", bad[0], p)
 		}
 	})
 }
